@@ -220,7 +220,7 @@ PROPS["C09"] = dict(
     trusted=SUB_TRUSTED,
 )
 
-COST_PROOFS = ["Base/Cost.v", "Mem/CostMem.v", "Sub/CostBlocks.v", "Sub/CostTwoWay.v", "Sub/CostTwoWayAll.v",
+COST_PROOFS = ["Base/Cost.v", "Mem/CostMem.v", "Sub/CostBlocks.v", "Sub/CostTwoWay.v", "Sub/CostTwoWayAll.v", "Sub/CostTwoWaySmall.v",
                "Sub/CostPrefilter.v", "Sub/CostSearcher.v"]
 PROPS["C13"] = dict(
     id="C13", coq_files=MEM_PROOF_FILES + ["Mem/IterProofs.v"] + ALL_SUB_PROOFS + COST_PROOFS + ["Props/C13.v"],
@@ -235,7 +235,6 @@ PROPS["C13"] = dict(
          "bytes are run on the implementation; non-trivial = haystack >= 256 bytes",
     assumptions=SUB_ASSUME + TIER1 + [
         "an elementary step is one recorded event: a raw load (vector chunk, word, byte, memcmp piece) or a loop tick; arithmetic between them is O(1) per event by inspection of the hooks' placement",
-        "forward search of small-period needles WITH a prefilter has only the product bound C13_find_small_period_partial (partial); the oracle still demands the linear bound there",
         "complete iterator traversals are bounded by the oracle (sum over calls), not yet by a theorem"],
     trusted=SUB_TRUSTED,
 )
